@@ -6,11 +6,16 @@
 //
 //	F sz:<n> <point>.<warmups>* [R:<i,j,..>]   forced scenario
 //	    point: idle head reqmod rt resmod write   progress point at which the connection is parked when Close is called
+//	           headc                              like head, but the half head arrives in the SAME write as a complete request that
+//	                                              is served keep-alive first (the bytes sit in the proxy's bufio.Reader)
 //	           late                               connection dialled (with a full request) after closing became visible
 //	           unreg                              Serve is held between l.Accept() and `go handleLoop` (first conn.RemoteAddr()
 //	                                              call blocks) until Close has returned (divergence D36)
 //	    warmups: number of complete exchanges done on that connection before it is driven to its point;
 //	             a trailing p (reqmod.1p) pipelines a second request right behind the parked one
+//	             a trailing h (write.1h) puts half of a next request head right behind the parked request (same write);
+//	             on head/headc a trailing c makes the client close its side once closing is visible, a trailing f makes
+//	             it complete the head after Close returned (must not be served); default: the client stays silent
 //	    async    (token) release all parked exchanges at once instead of one after the other
 //	    R: order in which the parked exchanges are released after Close was called
 //	    sc:<ms>  (token) every conn.Close() done by the proxy takes <ms> (X is recorded when it completed)
@@ -386,8 +391,29 @@ func (cl *client) sendPipelined(ns ...int) {
 	cl.c.Write(b.Bytes())
 }
 
+const halfHead = "GET http://h.test/b/5 HTTP/1.1\r\nHost: h.te"
+const restHead = "st\r\n\r\n"
+
+// sendThenHalf writes a complete request and the first half of the next
+// request head in a single socket write.
+func (cl *client) sendThenHalf(n int) {
+	cl.mu.Lock()
+	cl.sizes = append(cl.sizes, n)
+	cl.mu.Unlock()
+	fmt.Fprintf(cl.c, "GET http://h.test/b/%d HTTP/1.1\r\nHost: h.test\r\n\r\n%s", n, halfHead)
+}
+
+// sendRest completes the half head.
+func (cl *client) sendRest() {
+	cl.mu.Lock()
+	cl.sizes = append(cl.sizes, 5)
+	cl.mu.Unlock()
+	cl.c.SetWriteDeadline(time.Now().Add(time.Second))
+	fmt.Fprint(cl.c, restHead)
+}
+
 func (cl *client) sendHalf() {
-	fmt.Fprintf(cl.c, "GET http://h.test/b/5 HTTP/1.1\r\nHost: h.te")
+	fmt.Fprint(cl.c, halfHead)
 }
 
 // readOne reads one response; ok=false when the stream ended instead.
@@ -504,6 +530,8 @@ type spec struct {
 	point string
 	warm  int
 	pipe  bool
+	coal  bool // half of a next head coalesced behind the parked request
+	after byte // head/headc: 's' silent, 'c' client closes, 'f' client finishes the head after Close returned
 	cl    *client
 	cr    *connRec
 }
@@ -533,18 +561,31 @@ func parseForced(in []string) (sz int, specs []*spec, order []int, async bool, s
 		default:
 			pw := strings.SplitN(t, ".", 2)
 			w := 0
-			pipe := false
+			pipe, coal, after := false, false, byte('s')
 			if len(pw) == 2 {
-				if strings.HasSuffix(pw[1], "p") {
-					pipe = true
-					pw[1] = strings.TrimSuffix(pw[1], "p")
+				for len(pw[1]) > 0 && strings.ContainsRune("phcf", rune(pw[1][len(pw[1])-1])) {
+					switch pw[1][len(pw[1])-1] {
+					case 'p':
+						pipe = true
+					case 'h':
+						coal = true
+					case 'c':
+						after = 'c'
+					case 'f':
+						after = 'f'
+					}
+					pw[1] = pw[1][:len(pw[1])-1]
 				}
 				w, _ = strconv.Atoi(pw[1])
 			}
 			if w > 3 {
 				w = 3
 			}
-			specs = append(specs, &spec{point: pw[0], warm: w, pipe: pipe && isParked(pw[0])})
+			if pw[0] != "head" && pw[0] != "headc" {
+				after = 's'
+			}
+			specs = append(specs, &spec{point: pw[0], warm: w, pipe: pipe && !coal && isParked(pw[0]),
+				coal: coal && isParked(pw[0]), after: after})
 		}
 	}
 	if sz < 0 || sz > 1<<16 {
@@ -649,8 +690,19 @@ func runForced(in []string) (out []string) {
 			if s.warm > 0 {
 				h.add(fmt.Sprintf("h%d", s.cr.id))
 			}
+		case "headc":
+			cl.sendThenHalf(sz)
+			if !cl.readOne(10 * time.Second) {
+				flags = append(flags, "WARMUPFAIL")
+			}
+			// back in readRequest, with the half head already buffered
+			waitFor(5*time.Second, func() bool { return h.count(fmt.Sprintf("w%d", s.cr.id)) >= s.warm+1 })
+			time.Sleep(2 * time.Millisecond)
+			h.add(fmt.Sprintf("h%d", s.cr.id))
 		case "reqmod", "rt", "resmod":
-			if s.pipe {
+			if s.coal {
+				cl.sendThenHalf(sz)
+			} else if s.pipe {
 				cl.sendPipelined(sz, sz+7)
 			} else {
 				cl.send(sz)
@@ -661,7 +713,9 @@ func runForced(in []string) (out []string) {
 				flags = append(flags, "NOPARK")
 			}
 		case "write":
-			if s.pipe {
+			if s.coal {
+				cl.sendThenHalf(bigBody)
+			} else if s.pipe {
 				cl.sendPipelined(bigBody, sz+7)
 			} else {
 				cl.send(bigBody)
@@ -724,7 +778,11 @@ func runForced(in []string) (out []string) {
 		switch s.point {
 		case "reqmod", "rt", "resmod", "write":
 			parkedIdx = append(parkedIdx, i)
-		case "idle", "head":
+		case "idle", "head", "headc":
+			if s.after == 'c' {
+				// the client gives up once shutdown is visible
+				s.cl.c.Close()
+			}
 			s.cl.drain(8 * time.Second)
 		}
 	}
@@ -774,6 +832,18 @@ func runForced(in []string) (out []string) {
 			close(h.unregGate)
 			s.cl.drain(8 * time.Second)
 		}
+	}
+	// clients that complete their half head only now: nothing may be served any more
+	late := false
+	for _, s := range specs {
+		if (s.point == "head" || s.point == "headc") && s.after == 'f' {
+			time.Sleep(5 * time.Millisecond)
+			s.cl.sendRest()
+			late = true
+		}
+	}
+	if late {
+		time.Sleep(100 * time.Millisecond)
 	}
 	return e.finish(all, flags)
 }
@@ -1181,6 +1251,53 @@ func main() {
 			if rng.Chance(1, 2) {
 				in = append(in, "sc:40")
 				cfg.Count("slowclose")
+			}
+			cfg.Count(fmt.Sprintf("conns=%d", k))
+			n++
+			jobs = append(jobs, job{fmt.Sprintf("f%d", n), in})
+		}
+		// every form of "mid request head": fresh, after a keep-alive exchange, coalesced behind a
+		// complete request (finished or still parked); the client then stays silent, closes, or
+		// completes the head after Close returned
+		nh := 30
+		if cfg.Thorough() {
+			nh = 200
+		}
+		for i := 0; i < nh; i++ {
+			k := rng.Range(1, 3)
+			in := []string{"F", fmt.Sprintf("sz:%d", pickSz(rng))}
+			np := 0
+			for j := 0; j < k; j++ {
+				var tok string
+				switch c := rng.Intn(10); {
+				case j > 0 && c < 2:
+					p := points[rng.Intn(len(points))]
+					tok = fmt.Sprintf("%s.%d", p, rng.Intn(2))
+					if isParked(p) {
+						np++
+					}
+				case c < 6:
+					tok = fmt.Sprintf("headc.%d%s", rng.Intn(2), []string{"", "", "c", "f"}[rng.Intn(4)])
+					cfg.Count("point=headc")
+				case c < 8:
+					tok = fmt.Sprintf("head.%d%s", rng.Intn(2), []string{"c", "f"}[rng.Intn(2)])
+					cfg.Count("point=head")
+				default:
+					p := parkedPts[rng.Intn(4)]
+					if rng.Chance(1, 2) {
+						p = "write"
+					}
+					tok = fmt.Sprintf("%s.%dh", p, rng.Intn(2))
+					cfg.Count("coalesced-half-head")
+					np++
+				}
+				in = append(in, tok)
+			}
+			if ps := perms(np); len(ps) > 1 {
+				in = append(in, orderTok(ps[rng.Intn(len(ps))]))
+			}
+			if rng.Chance(1, 3) {
+				in = append(in, "sc:40")
 			}
 			cfg.Count(fmt.Sprintf("conns=%d", k))
 			n++
